@@ -342,6 +342,9 @@ func (n *Normer) Norm(v ssa.Value) Poly {
 }
 
 func typeShort(t types.Type) string {
+	if b, ok := t.(*types.Basic); ok && b.Kind() < types.UntypedBool {
+		return types.Typ[b.Kind()].Name() // byte -> uint8, rune -> int32
+	}
 	return types.TypeString(t, func(p *types.Package) string { return shortName(p.Path()) })
 }
 
@@ -448,6 +451,13 @@ func (n *Normer) normBinOp(x *ssa.BinOp) Poly {
 		}
 		return pAtom("Shl(" + a.String() + "," + b.String() + ")")
 	case token.SHR:
+		// x >> k == x / 2^k for the non-negative quantities shifted in this code base (lengths, counts)
+		if k, ok := b.IsConst(); ok && k >= 0 && k < 62 {
+			if ka, oka := a.IsConst(); oka {
+				return pConst(ka >> uint(k))
+			}
+			return pAtom("Div(" + a.String() + "," + pConst(1<<uint(k)).String() + ")")
+		}
 		return pAtom("Shr(" + a.String() + "," + b.String() + ")")
 	case token.AND, token.OR, token.XOR, token.AND_NOT:
 		as, bs := a.String(), b.String()
